@@ -4,20 +4,22 @@ import json, os
 VERIF = os.path.abspath(os.path.join(os.path.dirname(__file__), ".."))
 PY = "/venv/bin/python"
 
-CLAIMED = {
-    "C04": dict(
-        text="Lean 4 theorems (Props/C04.lean, 31 obligations): the loop body and tap table translated from devices.py on every run "
-             "are the documented LFSR; linear recurrence with the seed bits as virtual predecessors; minimal period exactly 2^n-1 from "
-             "every non-zero state for all seven orders (kernel-checked GF(2) matrix certificate + primality of every Mersenne factor, "
-             "so all 2^31-1 states of PRBS31 are covered without enumeration); orbit = all non-zero states; 2^(n-1) ones per period; "
-             "resume law for any split; seed normalisation and validation tables.  Tie: translator + exact differential run of the "
-             "compiled model against PRBS() incl. resumed calls and full cycles.",
-        note="Trusted: Lean kernel, translator tools/extract.py (taps dict, 3 loop-body expressions, seed expressions), harness; "
-             "Python int bit ops = Lean Nat bit ops; `len` non-int TypeError branch is oracle-only. Axioms: propext, Classical.choice, Quot.sound.",
-        technique="Lean 4 proof (kernel-evaluated GF(2) certificate + induction) over a model regenerated from source; differential correspondence run",
-        design="§5 C04"),
-}
+def load_claims():
+    """A property is claimed iff harness/props/<id>.py contains a literal `MANIFEST = {...}` with keys
+    text, note, technique, design (read with ast, the module is not imported)."""
+    import ast
+    claims = {}
+    d = os.path.join(VERIF, "harness", "props")
+    for fn in sorted(os.listdir(d)):
+        if fn.startswith("c") and fn.endswith(".py"):
+            tree = ast.parse(open(os.path.join(d, fn)).read())
+            for node in tree.body:
+                if isinstance(node, ast.Assign) and len(node.targets) == 1 and getattr(node.targets[0], "id", None) == "MANIFEST":
+                    claims[fn[:-3].upper()] = ast.literal_eval(node.value)
+    return claims
 
+
+CLAIMED = load_claims()
 NOT_YET = {}
 
 def main():
@@ -42,7 +44,7 @@ def main():
             na.append({"property_id": pid, "reason": NOT_YET.get(pid, "not claimed yet: model/theorems/correspondence for this property are still being built (see DESIGN.md §5); no check is registered until it is sound")})
     m = {
         "version": 1,
-        "setup_cmd": "cd lean && lake build OptiVerif driver",
+        "setup_cmd": "python3 tools/extract.py && python3 tools/gen_lean_index.py && cd lean && lake build OptiVerif driver",
         "hooks": {
             "guard": "OPTICOMLIB_VERIF",
             "enable": "no source hooks: all instrumentation (spies on numpy.random/scipy/sklearn, fake VISA session) is installed from the harness process; the variable is set by harness/check.py but read by nothing in /repo",
